@@ -126,10 +126,31 @@ class Depth(object):
         for ev in path.events:
             if ev[0] == 'if':
                 node, taken = ev[1], ev[2]
+                self.test_accesses(node.test)
                 self.guard(node.test, taken)
             elif ev[0] == 'stmt':
                 self.stmt(ev[1])
         return st
+
+    def test_accesses(self, test):
+        """accesses made while evaluating a condition; `a and b`: b is evaluated only when a held"""
+        if isinstance(test, ast.BoolOp) and isinstance(test.op, ast.And):
+            saved = {s: self.st[s]['g'] for s in SEQS}
+            for v in test.values:
+                self.test_accesses(v)
+                self.guard(v, True)
+            for s in SEQS:
+                self.st[s]['g'] = saved[s]
+            return
+        if isinstance(test, ast.BoolOp) and isinstance(test.op, ast.Or):
+            saved = {s: self.st[s]['g'] for s in SEQS}
+            for v in test.values:
+                self.test_accesses(v)
+                self.guard(v, False)
+            for s in SEQS:
+                self.st[s]['g'] = saved[s]
+            return
+        self.expr(test)
 
     # guards: a condition known to be False/True on this path
     def guard(self, test, taken):
